@@ -18,7 +18,7 @@ from .c01 import _pinv_param_atoms, _tuplify
 
 ID = 'C02'
 LEVEL = 'other'
-TECHNIQUE = 'jaxpr-level symbolic execution of the constructed expression vs. a recursive oracle that only calls the leaf operands\' mv + z3; legality of every operand pair enumerated'
+TECHNIQUE = 'jaxpr-level symbolic execution of the constructed expression vs. a recursive oracle that only calls the leaf operands\' mv + z3; legality of every operand pair enumerated; complex-valued operands exactly in Q(i)'
 EXPLANATION = ('Every arithmetic expression tree (@ + - unary +/- k* *k /k over plain operators, compositions, sums, identities, '
                'scalar operators, lazy/closed-form inverses and transposes of present operands; scalars as Python/NumPy/JAX kinds and '
                'as a symbolic traced value) is built with the real dunder methods inside the trace and compared by z3, for all '
